@@ -3,11 +3,56 @@ IO-TABLE: every Stdfs method reaches exactly its frozen set of OS calls;  READ-O
 import re
 from mir import Body, callee_of, op_local, op_place
 from panics import sdesc_operand, sdesc_place, sdesc_local
-import engine
+import engine, inline
 
 ERR_CTORS = ('<errors::path::PathError>::', '<errors::vfs::VfsError>::')
 SCOPE = ('sys::fs::memfs::vfs::Memfs', 'sys::fs::stdfs::Stdfs', 'sys::fs::stdfs::entry::StdfsEntry', 'sys::fs::memfs::entry::MemfsEntry',
          'sys::fs::memfs::entry::MemfsEntryOpts', 'sys::fs::memfs::entry::MemfsEntryIter')
+
+
+def _split2(inner):
+    depth = 0
+    for i, ch in enumerate(inner):
+        if ch in '([{<':
+            depth += 1
+        elif ch in ')]}>':
+            depth -= 1
+        elif ch == ',' and depth == 0:
+            return inner[:i], inner[i + 1:]
+    return None
+
+
+FLIP = {'Gt': ('Lt', True, False), 'Ge': ('Lt', False, True), 'Le': ('Lt', True, True), 'Ne': ('Eq', False, True), 'ne': ('eq', False, True),
+        'gt': ('lt', True, False), 'ge': ('lt', False, True), 'le': ('lt', True, True)}
+NEG1 = {'is_none': 'is_some', 'is_err': 'is_ok'}
+VARIANT_OF = {'is_some': ('Some', 'None'), 'is_ok': ('Ok', 'Err')}
+
+
+def canon_fact(desc, truth):
+    """one spelling per comparison: a > b is b < a, a >= b is !(a < b), a != b is !(a == b), is_none is !is_some; operands of == are sorted"""
+    m = re.match(r'^([A-Za-z_]+)\((.*)\)$', desc)
+    if not m:
+        return desc, truth
+    op, inner = m.group(1), m.group(2)
+    if op in NEG1 and _split2(inner) is None and isinstance(truth, bool):
+        op, truth = NEG1[op], not truth
+    if op in VARIANT_OF and _split2(inner) is None and isinstance(truth, bool):
+        return inner, VARIANT_OF[op][0 if truth else 1]          # x.is_some() == true is the same fact as matching x against Some
+    ab = _split2(inner)
+    if ab is None or not isinstance(truth, bool):
+        return desc, truth
+    a, b = ab
+    if _split2(b) is not None:
+        return desc, truth
+    if op in FLIP:
+        op, swap, neg = FLIP[op]
+        if swap:
+            a, b = b, a
+        if neg:
+            truth = not truth
+    if op in ('Eq', 'eq'):
+        a, b = sorted((a, b))
+    return '%s(%s,%s)' % (op, a, b), truth
 
 
 def structural_facts(B, bb):
@@ -36,7 +81,7 @@ def structural_facts(B, bb):
             while desc.startswith('Not(') and desc.endswith(')'):
                 desc = desc[4:-1]
                 truth = not truth
-            out.append((desc, truth))
+            out.append(canon_fact(desc, truth))
         else:
             dl = op_local(t['discr'])
             if dl is None:
@@ -71,13 +116,12 @@ def collect_err_guards(F, cg):
         root = F.bodies.get(b.get('root', ''), b) if b['kind'] == 'Closure' else b
         if root.get('impl_self') not in SCOPE:
             continue
-        B = cg.body(name)
-        for i, t in B.calls():
+        if inline.is_new_helper(F, name) or (b['kind'] == 'Closure' and inline.is_new_helper(F, b.get('root', ''))):
+            continue          # attributed to the frozen functions that call it
+        for B, i, t, facts, _inl in inline.walk_calls(F, cg, name, structural_facts, canon_fact):
             c = t.get('callee') or ''
             if not c.startswith(ERR_CTORS):
                 continue
-            # `X = Ok` is implied by every later use of X's payload (and is what `?` establishes silently): not recorded
-            facts = sorted({'%s=%s' % (d, v) for d, v in structural_facts(B, i) if v != 'Ok'})
             res.setdefault('%s|%s' % (name, c.split('::')[-1]), []).append(facts)
     for k in res:
         res[k] = sorted(res[k])
@@ -125,8 +169,10 @@ def collect_io(F, cg, impl_self):
         root = F.bodies.get(b.get('root', ''), b) if b['kind'] == 'Closure' else b
         if root.get('impl_self') != impl_self or root.get('impl_trait'):
             continue
-        B = cg.body(name)
-        calls = sorted({(t.get('callee') or '') for i, t in B.calls() if IO_CALL.match(t.get('callee') or '')})
+        if inline.is_new_helper(F, name) or (b['kind'] == 'Closure' and inline.is_new_helper(F, b.get('root', ''))):
+            continue
+        calls = sorted({(t.get('callee') or '') for B, i, t, _f, _inl in inline.walk_calls(F, cg, name, lambda B, i: [], canon_fact)
+                        if IO_CALL.match(t.get('callee') or '')})
         if calls:
             res[name] = calls
     return res
